@@ -29,7 +29,8 @@
 From Coq Require Import QArith List Bool ZArith.
 From SF Require Import Base.GeomAST Base.Outcome Base.QKernel Base.Planar Model.SetOpSpec Proofs.SetOpSpec_proofs
   Proofs.SetOpSpec_arr_proofs Model.OverlayComplex Proofs.OverlayComplex_proofs
-  Proofs.Planar_slab_base Proofs.Planar_slab_dim Proofs.SetOpSpec_suff_proofs.
+  Proofs.Planar_slab_base Proofs.Planar_slab_dim Proofs.SetOpSpec_suff_proofs
+  Model.OverlayRings Proofs.OverlayRings_proofs.
 Import ListNotations.
 Open Scope Q_scope.
 
@@ -378,6 +379,55 @@ Theorem select_comm : forall o c,
 Proof. exact select_comm_lemma. Qed.
 Print Assumptions select_comm.
 
+(* ================================================================ extractPolygons on the complex *)
+(* Model/OverlayRings.v: grouping of the selected faces (findFacesMakingPolygon), the ring walk
+   (extractPolygonRing with the seen bookkeeping), the exterior / hole decision (orderPolygonRings, by
+   the signed area carried as an abstract weight per half edge).  Iterations are fuelled; the theorems
+   speak about extractions that returned a value - which the driver observes on every real structure,
+   where the model's rings are compared ring by ring with the polygons the implementation extracted.
+   The remaining ordering steps (rotation of a ring to its least sequence, sorting of holes and of
+   polygons) only permute: they are modelled and proved order-independent for C10 (Model/Canon.v,
+   Canon_proofs.canon_ring_rotn / canon_poly_invariant_lemma); rings are compared here as cyclic
+   sequences and polygons as sets, i.e. modulo exactly those steps. *)
+
+(* rings: each ring is a closed cycle of the successor of extractPolygonRing; all half edges of all
+   rings of a group are distinct (rings simple and pairwise edge-disjoint); the half edges on the rings
+   are exactly the boundary half edges of the group (each lies on exactly one ring) *)
+Theorem extract_rings_spec : forall o c grp rings,
+  dcel_ok c = true -> group_ok o c grp = true -> group_rings o c grp = Some rings ->
+  (forall ring, In ring rings -> exists s, chain (ring_succ c grp) s s ring) /\
+  NoDup (concat rings) /\
+  Permutation.Permutation (concat rings) (group_boundary o c grp) /\
+  (forall z, In z (concat rings) -> gb c grp z).
+Proof. exact group_rings_spec_lemma. Qed.
+Print Assumptions extract_rings_spec.
+
+(* one step of the ring walk stays on the boundary of the group *)
+Theorem ring_succ_boundary : forall c grp i j,
+  dcel_ok c = true -> gb c grp i -> ring_succ c grp i = Some j -> gb c grp j.
+Proof. exact ring_succ_gb. Qed.
+Print Assumptions ring_succ_boundary.
+
+(* groups: pairwise disjoint, covering the selected faces, each closed under adjacency, made of
+   selected faces and connected - the connected components of the selected faces across edges *)
+Theorem extract_groups_spec : forall o c gs,
+  dcel_ok c = true -> polygon_groups o c = Some gs ->
+  (forall g, In g gs -> group_ok o c g = true /\ exists f, In f g /\ forall x, In x g -> conn o c f x) /\
+  (forall f, (f < nF c)%nat -> sel_face o c f = true -> exists g, In g gs /\ In f g) /\
+  ForallOrdPairs (fun g1 g2 => forall x, In x g1 -> ~ In x g2) gs.
+Proof. exact polygon_groups_spec_lemma. Qed.
+Print Assumptions extract_groups_spec.
+
+(* number of polygons = number of connected groups; the exterior ring and the holes of a polygon are
+   the rings of its group *)
+Theorem extract_polygons_groups : forall o c w ps,
+  extract_polygons o c w = Some ps ->
+  exists gs, polygon_groups o c = Some gs /\ map p_group ps = gs /\ length ps = length gs /\
+    forall p, In p ps -> exists rings, group_rings o c (p_group p) = Some rings /\
+                                       Permutation.Permutation (p_exterior p :: p_holes p) rings.
+Proof. exact extract_polygons_groups_lemma. Qed.
+Print Assumptions extract_polygons_groups.
+
 (* ================================================================ examples (non-vacuity) ====== *)
 Definition vz (x y : Z) : vtx Q := Build_vtx (inject_Z x) (inject_Z y) 0 0.
 Definition ringz (l : list (Z * Z)) : lineT Q := MkLine XY (map (fun p => vz (fst p) (snd p)) l).
@@ -462,4 +512,15 @@ Example complex_rejects :
   dcel_ok (MkC (c_verts exTri) (MkE 0 4 1 2 0 (true,false) (true,false) (true,false) :: tl (c_edges exTri)) (c_faces exTri)) = false /\
   dcel_ok (MkC (c_verts exTri) (MkE 0 3 2 2 0 (true,false) (true,false) (true,false) :: tl (c_edges exTri)) (c_faces exTri)) = false /\
   dcel_ok (MkC (c_verts exTri) (c_edges exTri) [MkF (Some 0%nat) (true, true); MkF (Some 3%nat) (false, false)]) = false.
+Proof. vm_compute. repeat split; reflexivity. Qed.
+
+(* the triangle again: one group, one ring (the three inner half edges in walk order), counter-clockwise
+   for a positive weight; with the operands swapped the difference selects nothing *)
+Example rings_example :
+  polygon_groups OpUnion exTri = Some [[0%nat]] /\
+  group_rings OpUnion exTri [0%nat] = Some [[0; 1; 2]%nat] /\
+  (match extract_polygons OpUnion exTri (fun i => if Nat.ltb i 3 then 1%Q else (-1)%Q) with
+   | Some [p] => p_exterior p = [0; 1; 2]%nat /\ p_holes p = [] /\ p_one_ccw p = true
+   | _ => False end) /\
+  extract_polygons OpDiff (swap_c exTri) (fun _ => 1%Q) = Some [].
 Proof. vm_compute. repeat split; reflexivity. Qed.
